@@ -189,6 +189,7 @@ class Run:
             'exhaustive': bool(self.bounded) and all(d['exhaustive'] for d in self.bounded.values()),
             'known_findings_hit': self.known_hits,
             'fixed_entries': self.fixed,
+            'slow_obligations_over_3s': [{'name': o.name, 'seconds': round(o.seconds, 1)} for o in self.obligations if o.seconds > 3 and o.backend != 'lean'][:40],
             'undecided': self.undecided, 'errors': self.errors, 'notes': self.notes,
             'explanation': self.technique,
         }
